@@ -7,6 +7,7 @@ import (
 	"encoding/json"
 	"fmt"
 	"strings"
+	"sync"
 	"sync/atomic"
 
 	"github.com/biogo/biogo/align"
@@ -41,9 +42,14 @@ func modeOf(a string) mode {
 	return fitted
 }
 
-var alphaCache = map[string]alphabet.Alphabet{}
+var (
+	alphaMu    sync.Mutex
+	alphaCache = map[string]alphabet.Alphabet{}
+)
 
 func alpha(def string) alphabet.Alphabet {
+	alphaMu.Lock()
+	defer alphaMu.Unlock()
 	if a, ok := alphaCache[def]; ok {
 		return a
 	}
